@@ -163,7 +163,15 @@ def replay(ob, res):
     where every key went."""
     from pyvc import replay as rp
     if "r" not in _rc:
-        _rc["r"] = rp.run_real(REPLAY, {"seed": 0}, timeout=600)
+        import os
+        total, obs = 0, None
+        for seed in (range(12) if os.environ.get("PYVC_TIER") == "thorough" else (0,)):      # the seed picks the key kinds and server-keys
+            obs = rp.run_real(REPLAY, {"seed": seed}, timeout=600)
+            total += obs.get("cases") or 0
+            if obs.get("failing") or "error" in obs:
+                break
+        obs = dict(obs, cases=total)
+        _rc["r"] = obs
     obs = _rc["r"]
     from pyvc.replay import failing_of
     if failing_of(obs):
